@@ -60,6 +60,9 @@ ProjOK ==
   /\ Chk("bRefs/rem", b'.idx # 0 => (p.bRefs = refs'[b'.idx] /\ p.rem = b'.rem))
   /\ Chk("beof", p.beof = b'.eof)
   /\ Chk("dec", p.dec = r'.dec)
+  /\ Chk("policy", "pol" \in DOMAIN p => Pol(p.pol) = policy')
+  \* (the decoder of the stored stream exists exactly while the member's decoder does: it is that decoder, or sits behind the MacBinary pass-through)
+  /\ Chk("inner", "inner" \in DOMAIN p => p.inner = r'.dec)
   /\ Chk("stack", Len(p.stack) = Len(dirStack') /\ \A i \in 1..Len(dirStack') : p.stack[i] = <<arc[dirStack'[i]].id, refs'[dirStack'[i]]>>)
   /\ Chk("deferred", Len(p.deferred) = Len(deferred') /\ \A i \in 1..Len(deferred') : p.deferred[i] = <<arc[deferred'[i]].id, refs'[deferred'[i]]>>)
 
